@@ -4,7 +4,7 @@
    platform p; all cardinalities are lengths of duplicate-free lists built with
    the standard finite-set operations of Coq.Lists.ListSet.
    Definitions only. *)
-From Coq Require Import ZArith QArith String Bool ListSet List.
+From Coq Require Import ZArith QArith String Bool ListSet Permutation List.
 From CBI Require Import Model.C07.
 Import ListNotations.
 Local Open Scope Z_scope.
@@ -82,3 +82,41 @@ Definition S_divergence (t : table) (ps : list string) : option Q :=
   else if S_pair_defined t ps
        then Some ((S_pair_sum t ps / 2) / (inject_Z (n * (n - 1)) / 2))%Q
        else None.
+
+(* ------------------------------------------------------------------ *)
+(* vocabulary of the statements                                        *)
+
+(* equality of metric values: both NaN, or equal as rationals *)
+Definition oeq (a b : option Q) : Prop :=
+  match a, b with
+  | Some x, Some y => (x == y)%Q
+  | None, None => True
+  | _, _ => False
+  end.
+
+(* the quantifier of the property: line counts are counts *)
+Definition wf (t : table) : Prop := forall r, In r t -> 0 <= snd r.
+
+(* what the optional `platforms` argument selects, as the API documents:
+   absent or empty = all platforms of the table, otherwise the given ones *)
+Definition selected (t : table) (arg : option (list string)) (ps : list string) : Prop :=
+  match arg with
+  | None | Some [] => is_platform_set t ps
+  | Some l => ps = l
+  end.
+
+(* undefinedness of each definition = its denominator is zero *)
+Definition no_lines (t : table) : Prop := universe t = [].
+Definition empty_union (t : table) (p q : string) : Prop := s_union (L t p) (L t q) = [].
+Definition undefined_pair (t : table) (ps : list string) : Prop :=
+  exists p q, In p ps /\ In q ps /\ p <> q /\ empty_union t p q.
+
+(* transformations of a table *)
+Definition rename_row (f : string -> string) (r : row) : row := (map f (fst r), snd r).
+Definition rename (f : string -> string) (t : table) : table := map (rename_row f) t.
+Definition scale (k : Z) (t : table) : table := map (fun r : row => (fst r, k * snd r)) t.
+(* the same dict: the same keys (as sets, written in any order) with the same
+   counts, inserted in any order *)
+Definition same_row (r r' : row) : Prop := Permutation (fst r) (fst r') /\ snd r = snd r'.
+Definition same_table (t t' : table) : Prop :=
+  exists t1, Permutation t t1 /\ Forall2 same_row t1 t'.
